@@ -14,6 +14,7 @@ from .. import pathq
 from .c07 import socket_coroutine, wire_writes, msg_mutations, is_param_msg
 
 EXPLANATION = __doc__
+WITNESS = ['C08']
 NOT_DECIDED = "interleavings of concurrent clients (follow from R08.3/R08.4 and per-peer FIFO, argued not checked)"
 ASSUMPTIONS = ["&mut self on send/recv excludes overlapping calls on one socket (type system; witness crate)",
                "scc::HashMap::get_async(key) returns the entry stored under exactly that key"]
